@@ -21,7 +21,7 @@ RULE = ('programs from vlib.writerprog.gen_program; non-trivial = >=2 accepted s
         'property; distinct = (per-session per-segment object kinds/data kinds/lengths, property notes)')
 ASSUMPTIONS = ['Python int lists must come back as an integer dtype holding all values (not a specific one)',
                'empty arrays of dtypes without a TDMS mapping carry no type requirement']
-REQUIRED = ['programs', 'segments_accepted', 'channels_compared', 'props_compared', 'prop_types_observed', 'append_sessions', 'path_targets',
+REQUIRED = ['objects_from_another_file', 'programs', 'segments_accepted', 'channels_compared', 'props_compared', 'prop_types_observed', 'append_sessions', 'path_targets',
             'names_checked']
 N = {'quick': 8000, 'thorough': 100000}
 
@@ -73,6 +73,7 @@ def run_case(case, ctx):
         ctx.count('path_targets')
     if len(prog.sessions) > 1:
         ctx.count('append_sessions')
+    ctx.count('objects_from_another_file', sum(1 for sess in prog.sessions for seg in sess for o in seg if o['kind'].startswith('tdms')))
     try:
         data, idx, shadow, log = WP.run_program(prog, nptdms, ctx.tmpdir)
     except Exception as ex:
@@ -187,7 +188,7 @@ def check_readback(ctx, prog, data, shadow, where='read'):
 
 def finalize(merged, tier):
     reasons = []
-    for k in WP.DATA_KINDS:
+    for k in list(WP.DATA_KINDS) + ['tdmschannel:str', 'tdmschannel:ts', 'tdmschannel:f32u', 'tdmschannel:i64']:
         base = k
         if merged['cells'].get('kind:' + base, 0) == 0:
             reasons.append('data kind %s never compared' % base)
